@@ -4,7 +4,9 @@
 (2) execution modes jit / vmap(params) / vmap(stimuli) / jit(vmap) vs sequential eager runs;
 (3) model checking over *histories of integrate calls* on one module: every sequence over a 7-call
     alphabet up to the depth bound; each call must equal the same call on a fresh module (bit for bit)
-    and leave the module's canonical snapshot unchanged.
+    and leave the module's canonical snapshot unchanged;
+(4) integrate / edit / integrate: a module that was simulated and then edited must be (tables and results, bit for bit)
+    the module that was only edited — "does not change the module" includes state integrate keeps out of sight.
 """
 from __future__ import annotations
 
@@ -22,11 +24,13 @@ RULE = (
     "three stored-input models; (1) every checkpoint_lengths tuple with depth<=3, entries 1..3 (quick) / 1..4 (thorough), "
     "steps<=prod<=12/16 for runs of 2 and 5 (quick) / 1,2,3,5 (thorough) steps; (2) jit, vmap over params with batch 1,2,3, vmap over "
     "stimuli, jit(vmap); (3) all sequences of integrate calls over {plain, data_stimuli, data_clamps, params, t_max shorter, "
-    "t_max longer, checkpointed} of length <=2 (quick) / <=3 (thorough); state = (model, canonical module snapshot hash, "
+    "t_max longer, checkpointed} of length <=2 (quick) / <=3 (thorough); (4) integrate, one edit of a 21-edit alphabet (delete/record/"
+    "stimulate/clamp/set/trainables/insert/delete_channel/set_ncomp/init_states, mostly through views), integrate again: tables and results "
+    "must be bit-identical to those of a module that was only edited; state = (model, canonical module snapshot hash, "
     "history); distinct = distinct (model, call/configuration) result digests"
 )
 REQUIRED_COVER = ["non_default_delta_t", "prod_gt_steps", "depth3_nesting", "externals_unequal_width", "batch_size_1", "jit", "vmap_params", "vmap_stimuli",
-                  "jit_vmap", "repeat_bit_identical", "history_depth2", "tmax_longer_pads", "tmax_shorter_truncates"]
+                  "jit_vmap", "repeat_bit_identical", "history_depth2", "edit_between_integrate_calls", "recordings_deleted_through_view_between_calls", "tmax_longer_pads", "tmax_shorter_truncates"]
 ASSUMPTIONS = [
     "eager CPU execution is deterministic (single XLA thread per worker), so bit-identity of repeated calls is decidable",
     "tolerance 1e-8 relative for mode/checkpoint equivalence (round-off amplified through spikes); repeated identical calls must be bit-identical",
@@ -279,7 +283,131 @@ def history_item(name, prefix, depth):
     return out
 
 
+# ---------------------------------------------------------------- (4) integrate calls interleaved with edits
+def _edits(name):
+    """Edit alphabet (public API, mostly through views).  'Calling integrate does not change the module' implies that a module
+    which was simulated and then edited is the module which was only edited — also in whatever integrate keeps out of sight."""
+    import jax.numpy as jnp
+    from jaxley.channels import K, Leak
+
+    net = name == "C"
+    first = (lambda m: m.cell(0)) if net else (lambda m: m.branch(0))
+    second = (lambda m: m.cell(1)) if net else (lambda m: m.branch(1))
+    comp = (lambda m: m.cell(1).branch(1).comp(0)) if net else (lambda m: m.branch(1).comp(0))
+    E = {
+        "delrec_first_rows": lambda m: first(m).delete_recordings(),
+        "delrec_last_rows": lambda m: second(m).delete_recordings(),
+        "delrec_all": lambda m: m.delete_recordings(),
+        "record_more": lambda m: comp(m).record("HH_h", verbose=False),
+        "delrec_then_record": lambda m: (first(m).delete_recordings(), comp(m).record("HH_n", verbose=False)),
+        "delstim_view": lambda m: first(m).delete_stimuli(),
+        "stimulate_more": lambda m: comp(m).stimulate(jnp.asarray(0.3 * models.stim_series(T, 5)), verbose=False),
+        "delclamp_all": lambda m: m.delete_clamps(),
+        "clamp_more": lambda m: comp(m).clamp("HH_h", jnp.asarray(0.4 + 0.05 * np.arange(T)), verbose=False),
+        "set_gK_view": lambda m: second(m).set("HH_gK", 0.05),
+        "set_radius_view": lambda m: first(m).set("radius", 1.7),
+        "set_v_view": lambda m: second(m).set("v", -61.0),
+        "deltrain_all": lambda m: m.delete_trainables(),
+        "deltrain_view": lambda m: first(m).delete_trainables(),
+        "train_more": lambda m: second(m).make_trainable("HH_gK", verbose=False),
+        "insert_K": lambda m: second(m).insert(K()),
+        "delete_Leak": lambda m: first(m).delete_channel(Leak()),
+        "init_states": lambda m: m.init_states(),
+        "group": lambda m: second(m).add_to_group("grp"),
+    }
+    if net:
+        E["set_gS"] = lambda m: m.IonotropicSynapse.set("IonotropicSynapse_gS", 3e-4)
+        E["delrec_synapse_view"] = lambda m: m.IonotropicSynapse.edge(0).delete_recordings()
+    else:
+        E["set_ncomp"] = lambda m: m.branch(1).set_ncomp(3)
+    return E
+
+
+def _edit_names(name):
+    from vf import env as _env
+
+    _env.setup()
+    return list(_edits(name))
+
+
+def _final(m, name, kind):
+    if kind == "params" and not m.trainable_params:
+        kind = "plain"
+    if len(m.recordings) == 0:
+        m.record("v", verbose=False)
+    return _call(m, name, kind)
+
+
+def interleave_item(name, firsts, finals, only=None):
+    out = {"violations": [], "cover": [], "refusals": [], "digests": [], "evals": 0, "transitions": 0}
+    E = _edits(name)
+    if only is not None:
+        E = {k: v for k, v in E.items() if k in only}
+    for ename, edit in E.items():
+        for c2 in finals:
+            env.maybe_clear_caches(20000)
+            ref = _setup(name)
+            try:
+                edit(ref)
+                ref_status = "ok"
+            except Exception as e:
+                ref_status = f"raise:{type(e).__name__}"
+            ref_snap = canon.snapshot(ref)
+            try:
+                want = ("ok", _final(ref, name, c2)) if ref_status == "ok" else (ref_status, None)
+            except Exception as e:
+                want = (f"integrate_raise:{type(e).__name__}", None)
+            for c1 in firsts:
+                wit = {"part": "interleave", "model": name, "first": c1, "edit": ename, "final": c2}
+                out["evals"] += 1
+                m = _setup(name)
+                try:
+                    _call(m, name, c1)
+                except Exception:
+                    out["refusals"].append(f"{name}:{c1}")
+                    continue
+                try:
+                    edit(m)
+                    st = "ok"
+                except Exception as e:
+                    st = f"raise:{type(e).__name__}"
+                out["transitions"] += 2
+                if st != ref_status:
+                    _viol(out, "simulated_then_edited_differs_from_edited", name, {"edit": ename, "what": "edit_outcome"}, wit,
+                          f"edit {ename} after integrate({c1}): {st}; on a module that was never simulated: {ref_status}")
+                    continue
+                if st != "ok":
+                    out["refusals"].append(f"{name}:{ename}:{st}")
+                    continue
+                d = canon.diff(ref_snap, canon.snapshot(m))
+                if d:
+                    _viol(out, "simulated_then_edited_differs_from_edited", name, {"edit": ename, "what": "tables"}, wit, f"tables differ at {d[:4]}")
+                    continue
+                try:
+                    got = ("ok", _final(m, name, c2))
+                except Exception as e:
+                    got = (f"integrate_raise:{type(e).__name__}", None)
+                if got[0] != want[0]:
+                    _viol(out, "simulated_then_edited_differs_from_edited", name, {"edit": ename, "what": "integrate_outcome"}, wit,
+                          f"{got[0]} vs {want[0]} on the never-simulated module")
+                elif got[0] == "ok":
+                    out["cover"].append("edit_between_integrate_calls")
+                    if ename.startswith("delrec") and "view" in ename or ename in ("delrec_first_rows", "delrec_last_rows"):
+                        out["cover"].append("recordings_deleted_through_view_between_calls")
+                    if got[1].shape != want[1].shape or not np.array_equal(got[1], want[1], equal_nan=True):
+                        err = _rel(got[1], want[1]) if got[1].shape == want[1].shape else float("inf")
+                        _viol(out, "simulated_then_edited_differs_from_edited", name, {"edit": ename, "what": "result", "bitwise_only": bool(err <= TOL)}, wit,
+                              f"integrate({c2}) after integrate({c1}) + {ename} differs from integrate({c2}) after {ename} alone (rel {err})")
+                    out["digests"].append(digest([name, ename, c2, digest(np.round(got[1], 9).tolist())]))
+                else:
+                    out["refusals"].append(f"{name}:{ename}:{got[0]}")
+    out["sample"] = {"part": "interleave", "model": name, "edits": list(E)[:4], "firsts": firsts, "finals": finals}
+    return out
+
+
 def work(item):
+    if item["part"] == "interleave":
+        return interleave_item(item["model"], item["firsts"], item["finals"], item.get("edits"))
     if item["part"] == "ckpt":
         return ckpt_item(item["model"], item["steps"], [tuple(t) for t in item["tuples"]], item.get("dt", DT))
     if item["part"] == "modes":
@@ -307,6 +435,12 @@ def explore(ctx):
         d = depth if (name == "B" or not quick) else 1
         for c in CALLS:
             items.append({"part": "history", "model": name, "prefix": [c], "depth": d})
+    for name in "ABC":
+        firsts = ["plain", "ckpt"] if quick else CALLS
+        enames = list(_edit_names(name))
+        for c2 in (["plain"] if quick else ["plain", "params", "data_stim"]):
+            for i in range(0, len(enames), 4):
+                items.append({"part": "interleave", "model": name, "firsts": firsts, "finals": [c2], "edits": enames[i:i + 4]})
     ctx.note("checkpoint_tuples", ntup)
     ctx.note("history_depth", depth)
     res = ctx.map("work", items)
@@ -320,6 +454,8 @@ def replay(w):
         return ckpt_item(w["model"], w["steps"], [tuple(w["tuple"])] if w.get("tuple") else [], w.get("dt", DT))["violations"]
     if w["part"] == "modes":
         return modes_item(w["model"])["violations"]
+    if w["part"] == "interleave":
+        return interleave_item(w["model"], [w["first"]], [w["final"]], [w["edit"]])["violations"]
     h = w["history"]
     r = history_item(w["model"], h, len(h))
     return r["violations"]
